@@ -26,12 +26,29 @@ pub fn meta_index(meta: &'static Metadata<'static>) -> (usize, bool) {
         None => {
             t.insert(key, n);
             SITES.get_or_init(Default::default).lock().unwrap().push(Site::from_metadata(meta));
+            // a call site and its metadata belong together: subscribers key caches on
+            // `metadata.callsite()` (tracing-core compares `Metadata` by it), so the identifier of a
+            // metadata object must lead back to that very object, and so must its field set
+            let back = meta.callsite().0.metadata() as *const Metadata<'_> as usize;
+            if back != key || meta.fields().iter().any(|f| f.callsite() != meta.callsite()) {
+                CALLSITE_FLAWS.get_or_init(Default::default).lock().unwrap().push(format!(
+                    "metadata object #{n} ({}) has a call-site identifier that belongs to another metadata object ({})",
+                    Site::from_metadata(meta).tok(),
+                    Site::from_metadata(meta.callsite().0.metadata()).tok()
+                ));
+            }
             (n, true)
         }
     }
 }
 
 static SITES: OnceLock<Mutex<Vec<Site>>> = OnceLock::new();
+static CALLSITE_FLAWS: OnceLock<Mutex<Vec<String>>> = OnceLock::new();
+
+/// Inconsistencies between metadata objects and their call-site identifiers seen since the last call.
+pub fn take_callsite_flaws() -> Vec<String> {
+    std::mem::take(&mut *CALLSITE_FLAWS.get_or_init(Default::default).lock().unwrap())
+}
 
 /// Content of the metadata object with interning index `idx`.
 pub fn meta_site(idx: usize) -> Option<Site> {
